@@ -34,7 +34,7 @@ PLANS = {
         (3, 3, 3, "m2", "m2", "two", "probe", "probe0", "some", "some", 12),
         # four-index operands: two free and two contracted legs (the contracted group is not the leading fuse group)
         (4, 2, 2, "m1", "m1", "two", "probe", "probe0", "all", "some", 4),
-        (4, 3, 2, "m1", "m1", "two", "probe", "probe0", "some", "some", 8),
+        (4, 3, 2, "m1", "m1", "one", "probe", "probe0", "some", "some", 8),
     ],
 }
 PLANS["thorough"] = PLANS["quick"] + [
